@@ -41,19 +41,28 @@ def gen_elem(r, depth, maxch, enames, p_same):
     return ("e", name, attrs, ch)
 
 
+def count_nodes(t):
+    if t[0] != "e":
+        return 1
+    return 1 + len(t[2]) + sum(count_nodes(c) for c in t[3])
+
+
 def gen_doc(r, big=False):
-    enames = r.choice([["a", "b"], ["a", "b", "c"], ["a", "a", "b", "c", "d"], ["a"]])
-    depth = r.choice([2, 3, 3, 4, 5] if not big else [4, 5, 6])
-    maxch = r.choice([2, 3, 3] if not big else [3, 4])
-    top = []
-    if r.random() < 0.15:
-        top.append(("c", "top"))
-    if r.random() < 0.12:
-        top.append(("p", "p", "d"))
-    top.append(gen_elem(r, depth, maxch, enames, r.choice([0.0, 0.3, 0.6])))
-    if r.random() < 0.1:
-        top.append(("c", "end"))
-    return top
+    cap = 45 if not big else 90
+    while True:
+        enames = r.choice([["a", "b"], ["a", "b", "c"], ["a", "a", "b", "c", "d"], ["a"]])
+        depth = r.choice([2, 3, 3, 4, 5] if not big else [4, 5, 6])
+        maxch = r.choice([2, 3, 3] if not big else [3, 4])
+        top = []
+        if r.random() < 0.15:
+            top.append(("c", "top"))
+        if r.random() < 0.12:
+            top.append(("p", "p", "d"))
+        top.append(gen_elem(r, depth, maxch, enames, r.choice([0.0, 0.3, 0.6])))
+        if r.random() < 0.1:
+            top.append(("c", "end"))
+        if sum(count_nodes(t) for t in top) <= cap:
+            return top
 
 
 def xml_of(top):
